@@ -447,6 +447,11 @@ def Modify.solutions (c : Cfg) (u : Modify) (s : St) : List Binding :=
   | some f => bag.filter f.keep
   | none => bag
 
+/-- the dataset a full-algebra WHERE clause is evaluated against (`Modify.solutions`, case `WMode.alg`) -/
+def Modify.algDataset (c : Cfg) (u : Modify) (s : St) : WhereDS :=
+  if u.using_.isEmpty && u.named.isEmpty then storeDataset c s u.withG
+  else (usingDataset s u.using_ u.named).nonEmptyNamed
+
 /-- the repaired `evalModify`: solutions first, every deletion, then every insertion -/
 def evalModify (c : Cfg) (u : Modify) (s : St) : St :=
   let sols := u.solutions c s
